@@ -4,7 +4,7 @@
    [build ws] is the trie after inserting the words ws, in that order, into an empty trie. *)
 From Coq Require Import List NArith Sorted.
 From GrolModel Require Import Trie.
-From GrolProofs Require Import Trie_proofs.
+From GrolProofs Require Import Trie_proofs Trie_order.
 Import ListNotations.
 
 (* membership holds exactly for the inserted non-empty words, for every insertion sequence *)
@@ -33,6 +33,22 @@ Theorem C20_completion : forall (ws : list word) (typed : word),
   end.
 Proof. exact build_complete. Qed.
 
+(* "in any order": what a query returns depends only on WHICH words were inserted - any two insertion sequences with the
+   same elements (a reordering, repetitions) give the same words, the same reported length and the same membership *)
+Theorem C20_order_independent : forall (ws ws' : list word) (p : word),
+  (forall w, In w ws <-> In w ws') ->
+  snd (prefix_all (build ws) p) = snd (prefix_all (build ws') p)
+  /\ (snd (prefix_all (build ws) p) <> [] -> fst (prefix_all (build ws) p) = fst (prefix_all (build ws') p)).
+Proof. exact prefix_all_order_independent. Qed.
+
+Theorem C20_membership_order_independent : forall (ws ws' : list word) (w : word),
+  (forall x, In x ws <-> In x ws') -> contains (build ws) w = contains (build ws') w.
+Proof. exact contains_order_independent. Qed.
+
+Example C20_ex_orders :
+  prefix_all (build [[97;98];[97];[98]]%N) [97]%N = prefix_all (build [[98];[97];[97;98];[97]]%N) [97]%N.
+Proof. vm_compute. reflexivity. Qed.
+
 (* non-vacuity / sanity: the historical failing sequence "ab" then "a", and a 0x00/0xff case *)
 Example C20_ex_prefix_word :
   contains (build [[97;98];[97]]%N) [97]%N = true
@@ -44,3 +60,5 @@ Proof. vm_compute. repeat split. Qed.
 Print Assumptions C20_membership.
 Print Assumptions C20_prefix_query.
 Print Assumptions C20_completion.
+Print Assumptions C20_order_independent.
+Print Assumptions C20_membership_order_independent.
